@@ -80,11 +80,13 @@ theorem afterPosted_inv {nt : Nat} (s : St) (t : Tok) (l : Ledger) (src dst : Na
           | none => exact h.throw
           | some l' => exact h.fin l' d1 d2 (hl0.neoOnPayment h.neoC hn)
     · rw [if_neg hc]
-      cases recv with
-      | none => exact h.fin l d1 d2 hl0
-      | accept => exact h.fin l d1 d2 hl0
-      | throws => exact h.throw
-      | cb => exact ⟨h.notary, h.neoC, hl0, h.snap⟩
+      split
+      · exact h.throw
+      · cases recv with
+        | none => exact h.fin l d1 d2 hl0
+        | accept => exact h.fin l d1 d2 hl0
+        | throws => exact h.throw
+        | cb => exact ⟨h.notary, h.neoC, hl0, h.snap⟩
 
 theorem InvG.neoPostPersistAll {nt : Nat} {dn dg k : Int} {e : Env} {l l' : Ledger}
     (hi : InvG nt dn dg k l) (hc : ¬ (l.committee.map (fun c => (c.1, acctOf e c.1, c.2))).any (fun c => c.2.1 = nt) = true)
@@ -253,7 +255,7 @@ theorem exec_inv {nt : Nat} (s : St) (op : Op) (h : MInv nt s) : MInv nt (exec s
             cases hm : mintGasCb s.env l acc g with
             | none => exact h.throw
             | some l' => exact h.done l' .t (hv.mintGasCb h.notary hm)
-  | register pub =>
+  | register pub caller =>
     simp only [exec]
     split
     · exact h
@@ -325,6 +327,15 @@ theorem exec_inv {nt : Nat} (s : St) (op : Op) (h : MInv nt s) : MInv nt (exec s
       · exact h.throw
       · exact h.done _ _ (h.cur.congr (sameCore_unblockAccount _ _))
 
+/-- block-level operations are never skipped and have no calling contract. -/
+theorem step_eq_exec (s : St) (op : Op) (h : op.isCall = false) : step s op = exec s op := by
+  unfold step
+  rw [if_neg (by simp [h])]
+  have : callerBlocked s op = false := by
+    unfold callerBlocked
+    cases op <;> simp [Op.isCall] at h <;> simp [Op.caller]
+  simp [this]
+
 theorem step_inv {nt : Nat} (s : St) (op : Op) (h : MInv nt s) : MInv nt (step s op) := by
   unfold step
   split
@@ -332,7 +343,9 @@ theorem step_inv {nt : Nat} (s : St) (op : Op) (h : MInv nt s) : MInv nt (step s
     · exact ⟨h.notary, h.neoC, h.cur, h.snap⟩
     · exact ⟨h.notary, h.neoC, h.cur, h.snap⟩
     · exact h
-  · exact exec_inv s op h
+  · split
+    · exact h.throw
+    · exact exec_inv s op h
 
 theorem run_inv {nt : Nat} (s : St) (ops : List Op) (h : MInv nt s) : MInv nt (run s ops) := by
   induction ops generalizing s with
